@@ -413,6 +413,24 @@ Proof.
 Qed.
 Print Assumptions c14_status_pid_first_line.
 
+(* Which values the tables consulted one after the other share, on the regenerated tables: a value in two of them is decided
+   by the order of the dispatch, so a NEW enumeration value that shadows a later table (the class of seeded C14-8) changes one
+   of these lists.  23 exception codes are also NTSTATUS values, 26 winerror.h values are also NTSTATUS values, no value of the
+   three tables is a facility / winerror.h composite, no kernel return code is an architecture-specific EXC_BAD_ACCESS code. *)
+Theorem c14_dispatch_overlaps_documented :
+  overlap MEM_ExceptionCodeWindows MEM_WinErrorWindows = [] /\
+  overlap MEM_ExceptionCodeWindows MEM_NtStatusWindows =
+    [2147483649; 2147483650; 2147483651; 2147483652; 3221225477; 3221225478; 3221225480; 3221225501; 3221225509; 3221225510;
+     3221225612; 3221225613; 3221225614; 3221225615; 3221225616; 3221225617; 3221225618; 3221225619; 3221225620; 3221225621;
+     3221225622; 3221225725; 3221225876] /\
+  overlap MEM_WinErrorWindows MEM_NtStatusWindows =
+    [0; 1; 2; 3; 63; 128; 191; 192; 255; 259; 266; 267; 275; 276; 277; 278; 288; 298; 299; 300; 301; 302; 303; 304; 514; 534] /\
+  filter facility_decomposable (MEM_ExceptionCodeWindows ++ MEM_WinErrorWindows ++ MEM_NtStatusWindows) = [] /\
+  overlap MEM_ExceptionCodeMacBadAccessKernType
+          (MEM_ExceptionCodeMacBadAccessArmType ++ MEM_ExceptionCodeMacBadAccessPpcType ++ MEM_ExceptionCodeMacBadAccessX86Type) = [].
+Proof. exact dispatch_overlaps. Qed.
+Print Assumptions c14_dispatch_overlaps_documented.
+
 Example c14_nonvacuous_round5 :
   crash_reason gen_lk OsWindows X86_64
     {| e_tid := 1; e_code := 3221226505; e_flags := 0; e_nparams := 1; e_info0 := 4294967296 + 7; e_info1 := 0; e_info2 := 0;
